@@ -41,47 +41,63 @@ func NewTaskFunc(f func(ctx context.Context) error) *Task {
 }
 
 func (s *Task) Start(ctx context.Context) {
+	verifPoint(s, "start.cas")
 	if !s.isRunning.CompareAndSwap(false, true) {
 		return
 	}
+	verifPoint(s, "start.loadDone")
 	if s.isDone.Load() {
 		return
 	}
 	subCtx, cancel := context.WithCancel(ctx)
 
+	verifPoint(s, "start.storeCancel")
 	s.cancel.Store(cancel)
+	verifPoint(s, "start.storeStop")
 	s.stopCh.Store(make(chan struct{}))
 	s.err.Store(nil)
 
+	verifPoint(s, "start.spawn")
 	go func() {
 		defer s.isRunning.Store(false)
+		defer verifPoint(s, "go.reset")
+		verifPoint(s, "go.begin")
 		err := s.runFunc(subCtx)
+		verifPoint(s, "go.returned")
 		isContextErr := errors.Is(err, context.Canceled) || errors.Is(err, context.DeadlineExceeded)
 
 		// returned due to calling Stop()
 		if ctx.Err() == nil && subCtx.Err() != nil && isContextErr {
+			verifPoint(s, "go.closeStop")
 			close(s.stopCh.Load().(chan struct{}))
 			return
 		}
 
 		// returned due to cancelling context from outside
 		if ctx.Err() != nil || !isContextErr {
+			verifPoint(s, "go.setDone")
 			s.isDone.Store(true)
 			s.err.Store(&err)
+			verifPoint(s, "go.closeDone")
 			close(s.doneCh.Load().(chan struct{}))
+			verifPoint(s, "go.closeStop")
 			close(s.stopCh.Load().(chan struct{}))
 			return
 		}
 
 		// returned due to interal error
+		verifPoint(s, "go.setDone")
 		s.isDone.Store(true)
 		s.err.Store(&err)
+		verifPoint(s, "go.closeDone")
 		close(s.doneCh.Load().(chan struct{}))
+		verifPoint(s, "go.closeStop")
 		close(s.stopCh.Load().(chan struct{}))
 	}()
 }
 
 func (s *Task) Stop() <-chan struct{} {
+	verifPoint(s, "stop.loadCancel")
 	c := s.cancel.Load()
 	if c == nil {
 		closedCh := make(chan struct{})
@@ -89,8 +105,10 @@ func (s *Task) Stop() <-chan struct{} {
 		return closedCh
 	}
 
+	verifPoint(s, "stop.cancel")
 	c.(context.CancelFunc)()
 
+	verifPoint(s, "stop.loadStop")
 	st := s.stopCh.Load()
 	if st == nil {
 		closedCh := make(chan struct{})
